@@ -27,6 +27,8 @@ package registry
 //@ requires c != nil && c.GraphTarget != nil
 //@ at call content.FetchAll: assert[C19.manifest-cap] arg2 == sigManifestDesc && sigManifestDesc.Size <= 4*1024*1024 && (sigManifestDesc.MediaType == artifactspec.MediaTypeArtifactManifest || sigManifestDesc.MediaType == ocispec.MediaTypeImageManifest)
 //@ ensures-local[C19.exactly-one-blob] result1 == nil ==> len(signatureBlobs) == 1 && result == signatureBlobs[0]
+//@ ensures-local[C19.blob-of-its-flavour] result1 == nil && sigManifestDesc.MediaType == ocispec.MediaTypeImageManifest ==> signatureBlobs == imgLayers(string(manifestJSON))
+//@ ensures-local[C19.blob-of-its-flavour] result1 == nil && sigManifestDesc.MediaType != ocispec.MediaTypeImageManifest ==> signatureBlobs == artBlobs(string(manifestJSON))
 
 //@ func (*repositoryClient).FetchSignatureBlob
 //@ props C19
